@@ -12,6 +12,13 @@
 (* the tables e was made from (copy, d - c, projection, d(c = f), rename, do ...).  NextDerived    *)
 (* is the directed history form for exactly that: a table, a table made from it, then one of the  *)
 (* two changed in place or grown, all registers observed.                                          *)
+(* The session also holds the CALLER'S OWN argument objects (av: a dict of columns, a dict of     *)
+(* renames, a list of records, a list of values, a list of names, a list of positions).  Calls    *)
+(* that take them name the object, so the same object reaches several calls; the caller edits     *)
+(* them in place between calls (CallerEdits) or takes new ones (Bind).  Law: no call changes av   *)
+(* (CallsOwnNothing; observed as Snapshot.args, clause argument_changed) and every call sees the  *)
+(* objects as they are at that moment.  NextShared* are the directed forms "objects ; table ;     *)
+(* call ; [edit ;] call" = every ordered pair of calls that share argument objects.               *)
 EXTENDS DictableOps, Json
 CONSTANTS MaxDepth, MaxRowsC
 
